@@ -197,6 +197,19 @@ static string all_packers(const RDMCommand &c) {
     uint8_t b[600]; unsigned int sz = st.Read(b, sizeof(b));
     r += ";wr=" + string(k ? "1/" : "0/") + vh::hex(b, sz);
   }
+  {  // Write onto a stack that already holds data: the frame goes in front of it
+    ola::io::IOStack st;
+    const uint8_t pre[3] = {0xaa, 0xbb, 0xcc};
+    st.Write(pre, sizeof(pre));
+    bool k = RDMCommandSerializer::Write(c, &st);
+    uint8_t b[600]; unsigned int sz = st.Read(b, sizeof(b));
+    r += ";wr2=" + string(k ? "1/" : "0/") + vh::hex(b, sz);
+  }
+  {  // a buffer larger than needed: *size is set to the bytes used
+    uint8_t b[300]; unsigned int sz = sizeof(b);
+    bool k = RDMCommandSerializer::Pack(c, b, &sz);
+    r += ";pbig=" + string(k ? "1/" : "0/") + vh::str(sz) + "/" + (k ? vh::hex(b, sz) : "-");
+  }
   {  // Pack appends to what is already in the output
     ola::io::ByteString o2; o2.push_back(0xaa); o2.push_back(0xcc); o2.push_back(0x01);
     bool k = RDMCommandSerializer::Pack(c, &o2);
@@ -283,6 +296,50 @@ static string op_null(const vector<string> &a) {
   RDMStatusCode st = RDM_COMPLETED_OK;
   RDMResponse *x = RDMResponse::InflateFromData(NULL, n, &st);
   r += ";resp=" + ep_s(x, st, true, "-");
+  return r;
+}
+
+// nullctor <g|s|b> <cmd> <n>: every public constructor given (data = NULL, length = n); 'b' = the command is a
+// request and the response is built by GetResponseFromData(request, NULL, n)
+static string op_nullctor(const vector<string> &a) {
+  Fields f = parse_fields(a[2]);
+  unsigned int n = vh::num(a[3]);
+  std::auto_ptr<RDMCommand> c;
+  std::auto_ptr<RDMRequest> rq;
+  char v = a[1][0];
+  if (v == 'b') {
+    rq.reset(make_request(f, 'g', RDMRequest::OverrideOptions()));
+    c.reset(GetResponseFromData(rq.get(), NULL, n));
+    if (!c.get()) return "size=none";
+  } else if (is_req_cc(f.cc)) {
+    RDMRequest::OverrideOptions opt; opt.message_count = f.mc;
+    if (v == 's' && f.cc == RDMCommand::GET_COMMAND)
+      c.reset(new RDMGetRequest(f.src, f.dst, f.tn, f.port, f.sub, f.pid, NULL, n, opt));
+    else if (v == 's' && f.cc == RDMCommand::SET_COMMAND)
+      c.reset(new RDMSetRequest(f.src, f.dst, f.tn, f.port, f.sub, f.pid, NULL, n, opt));
+    else if (v == 's')
+      c.reset(new RDMDiscoveryRequest(f.src, f.dst, f.tn, f.port, f.sub, f.pid, NULL, n, opt));
+    else
+      c.reset(new RDMRequest(f.src, f.dst, f.tn, f.port, f.sub,
+                             static_cast<RDMCommand::RDMCommandClass>(f.cc), f.pid, NULL, n, opt));
+  } else {
+    if (v == 's' && f.cc == RDMCommand::GET_COMMAND_RESPONSE)
+      c.reset(new RDMGetResponse(f.src, f.dst, f.tn, f.port, f.mc, f.sub, f.pid, NULL, n));
+    else if (v == 's' && f.cc == RDMCommand::SET_COMMAND_RESPONSE)
+      c.reset(new RDMSetResponse(f.src, f.dst, f.tn, f.port, f.mc, f.sub, f.pid, NULL, n));
+    else if (v == 's')
+      c.reset(new RDMDiscoveryResponse(f.src, f.dst, f.tn, f.port, f.mc, f.sub, f.pid, NULL, n));
+    else
+      c.reset(new RDMResponse(f.src, f.dst, f.tn, f.port, f.mc, f.sub,
+                              static_cast<RDMCommand::RDMCommandClass>(f.cc), f.pid, NULL, n));
+  }
+  string r = "size=" + vh::str(c->ParamDataSize()) + ";cmd=" + cmd_s(c.get()) + ";" + all_packers(*c);
+  ola::io::ByteString out;
+  if (!RDMCommandSerializer::Pack(*c, &out)) return r;
+  vector<uint8_t> bytes(out.begin(), out.end());
+  vh::Exact e(bytes);
+  std::auto_ptr<RDMCommand> back(RDMCommand::Inflate(e.p, e.n));
+  r += ";eqback=" + string(back.get() ? ((*back == *c && *c == *back) ? "1" : "0") : "none");
   return r;
 }
 
@@ -448,6 +505,7 @@ static string handle(const string &p) {
   if (op == "eq") return op_eq(a);
   if (op == "disc") return prefix_keys(op_disc(a), "b_");
   if (op == "null") return op_null(a);
+  if (op == "nullctor") return op_nullctor(a);
   if (op == "combine") return prefix_keys(op_combine(a), "b_");
   if (op == "reply") return prefix_keys(op_reply(a), "b_");
   if (op == "pack") {
